@@ -48,7 +48,7 @@ def api_ob(prog, name, cls, ctx, drv):
         # (a) invariant of every returned object
         outs = [res] if isinstance(res, Obj) else ([x for x in res if isinstance(x, Obj)] if isinstance(res, (tuple, list)) else [])
         oracle = None
-        if name == "affine_joint_transformation":
+        if name == "affine_joint_transformation" and cls in drivers.COND_CLASSES:
             # block-determinant theorem  ln det Sigma_xy = ln det Sigma_x + ln det Sigma_{y|x}  (oracle shared with C07)
             from .c07 import joint_reference
             c, px = ops["c"], ops["px"]
